@@ -672,4 +672,68 @@ theorem chainIn_of_reaches (dep : Nat → Nat → Option (Nat × Nat)) (tt : Nat
     obtain ⟨r, hr, hrt, hrk⟩ := hasKey_exists hk
     exact .step (hrk ▸ hall r hr hrt) hd (ih (hin _ _ hd))
 
+/-! ### batches of any nesting -/
+
+/-- a workload of inserts and (possibly nested) `with db:` blocks that are left normally -/
+def Batched (W : List Call) : Prop :=
+  ∀ c ∈ W, wfInsertPath c.ops = true ∨ c.ops = [.enter] ∨ c.ops = [.exit]
+
+/-- with at most one level of deferral counted nothing is waiting for a commit -/
+structure Flushed (db : Db) : Prop where
+  h : db.defer ≤ 1 → db.durable = db.work
+
+theorem specStep_noexec (st : List Row × List Nat) (c : Call) (h : callExec c = none) : specStep st c = st := by
+  simp [specStep, h]
+
+theorem runCall_batched (C : CommitMethod) (hC : wfCommit C = true) (hB : wfBatch C = true) (c : Call)
+    (hc : wfInsertPath c.ops = true ∨ c.ops = [.enter] ∨ c.ops = [.exit]) (db : Db) (hf : Flushed db) :
+    (runCall C db c).work = (specStep (db.work, db.acks) c).1 ∧
+    (runCall C db c).acks = (specStep (db.work, db.acks) c).2 ∧
+    Flushed (runCall C db c) := by
+  have hK : C.enterKeeps = true := by simp [wfBatch] at hB; exact hB.1
+  have hX : C.exitResetsFirst = true := by simp [wfBatch] at hB; exact hB.2
+  rcases hc with hc | hc | hc
+  · by_cases h0 : db.defer = 0
+    · have hclean : Clean db := ⟨(hf.h (by omega)).symm, h0⟩
+      have := runCall_wf C hC c hc db hclean
+      rw [this, hclean.1]
+      exact ⟨rfl, rfl, ⟨fun _ => rfl⟩⟩
+    · obtain ⟨d1, d2, d3, d4, d5⟩ := runCall_deferred C hC c hc db (by omega)
+      refine ⟨d2, d3, ⟨fun hle => ?_⟩⟩
+      have he : (runCall C db c).defer = db.defer := by omega
+      rw [d1, d5 he]
+      exact hf.h (by omega)
+  · have hn : callExec c = none := by simp [callExec, hc]
+    rw [specStep_noexec _ c hn]
+    simp only [runCall, hc, List.length_cons, List.length_nil, runPrims, stepPrim, hK, ↓reduceIte]
+    refine ⟨trivial, trivial, ⟨fun hle => ?_⟩⟩
+    apply hf.h
+    simp only at hle
+    omega
+  · have hn : callExec c = none := by simp [callExec, hc]
+    rw [specStep_noexec _ c hn]
+    by_cases hgt : db.defer > 1
+    · simp [runCall, hc, runPrims, stepPrim, hX, hgt, doCommit_idle C hC, Flushed_mk]
+    · have hd := hf.h (by omega)
+      simp only [runCall, hc, List.length_cons, List.length_nil, runPrims, stepPrim, hX, hgt, ↓reduceIte]
+      exact ⟨trivial, trivial, ⟨fun _ => hd⟩⟩
+where
+  Flushed_mk : ∀ (db : Db), db.durable = db.work → Flushed db := fun _ h => ⟨fun _ => h⟩
+
+theorem runCalls_batched (C : CommitMethod) (hC : wfCommit C = true) (hB : wfBatch C = true) (W : List Call)
+    (hW : Batched W) :
+    ∀ (db : Db), Flushed db →
+      (runCalls C W db).work = (W.foldl specStep (db.work, db.acks)).1 ∧
+      (runCalls C W db).acks = (W.foldl specStep (db.work, db.acks)).2 ∧
+      Flushed (runCalls C W db) := by
+  induction W with
+  | nil => intro db hf; exact ⟨rfl, rfl, hf⟩
+  | cons c cs ih =>
+    intro db hf
+    obtain ⟨h1, h2, h3⟩ := runCall_batched C hC hB c (hW c (by simp)) db hf
+    obtain ⟨i1, i2, i3⟩ := ih (fun x hx => hW x (by simp [hx])) (runCall C db c) h3
+    simp only [runCalls, List.foldl_cons] at i1 i2 i3 ⊢
+    rw [h1, h2] at i1 i2
+    exact ⟨i1, i2, i3⟩
+
 end Ipv8.C19
